@@ -1,7 +1,7 @@
 """C07 — connections exist only after a nonce-validated 3-way handshake."""
 import hc_streams
 from props import _hc
-from hc_oracles import handshake_oracle, grammar_oracle, ep_crash_oracle, entry_stability_oracle, single_ack_nonce_oracle
+from hc_oracles import handshake_oracle, grammar_oracle, ep_crash_oracle, entry_stability_oracle, single_ack_nonce_oracle, synack_constant_oracle
 
 PROP = "C07"
 COQ_FILE = "props/C07.v"
@@ -22,4 +22,4 @@ def streams(seed, tier):
 
 
 def oracle(name, ops, out):
-    return _hc.run_oracles({"*": [ep_crash_oracle, handshake_oracle, entry_stability_oracle, single_ack_nonce_oracle, grammar_oracle]}, name, ops, out)
+    return _hc.run_oracles({"*": [ep_crash_oracle, handshake_oracle, entry_stability_oracle, single_ack_nonce_oracle, synack_constant_oracle, grammar_oracle]}, name, ops, out)
